@@ -38,6 +38,16 @@ META = {
             "reload. Oracle additionally runs compiler-stage documents (all of the above plus settotalmass, fusestatic, "
             "balanceinertia, boundmass/boundinertia, autolimits, alignfree, angle/eulerseq, default classes, referenced visual "
             "geoms) and mjSpec programs with discardvisual / inertiafromgeom through the full array comparison. "
+            "Model/XmlArity.lean models the variable-arity branch of mjXWriter::OneTendon (springlength printed with one or two "
+            "values depending on the tendon's AND the default class's pair, WriteAttr without trim) and the reader's copy of a "
+            "single value; spring_roundtrip proves for every tendon pair and class pair (exact scalars) that the reader returns "
+            "the tendon's pair, i.e. the attribute is skipped only if the reloaded value equals the original; "
+            "own_pair_only_loses_value shows the class-pair clause is necessary; tied to the real writer on generated "
+            "(tendon pair, class pair) combinations. Oracle additionally runs default-coincidence documents: a class tree "
+            "main > c1 > c2 with non-degenerate multi-component defaults and elements / nested classes that coincide with the "
+            "class value in some components only (all, none, first, last, random mask, shorter vector, single value) for every "
+            "multi-component attribute (generated-table rows with len > 1 incl. hand-written ones, springlength, user arrays) of "
+            "geom, joint, site, camera, light, pair, material, tendon, general actuator and equality. "
             "Model/XmlDefaults.lean models mjXWriter::WriteAttrTable with WriteAttr/WriteAttrKey "
             "(NaN skip, SameVector elision against the default, trailing-default trim of non-exact rows, keyword lookup) and "
             "mjXReader::ReadAttrTableCore with ReadAttr/MapValue (absent -> keep the default, arity checks, prefix overwrite, "
@@ -83,6 +93,10 @@ THEOREMS_INERTIAL = [
     "MjProof.C32.unsafe_explicit_visual",
     "MjProof.C32.unsafe_explicit_nogeom",
     "MjProof.C32.promotion_needs_demotion",
+]
+THEOREMS_ARITY = [
+    "MjProof.C32.spring_roundtrip",
+    "MjProof.C32.own_pair_only_loses_value",
 ]
 THEOREMS_GEN = [
     "MjProof.C32.generated_maps_ok",
@@ -413,6 +427,147 @@ def compiler_stage_doc(rng, exact, mode=None):
             "fusable": any(b["static"] for b in bodies)}
 
 
+# ------------------------------------------------------------------------------------------ default-coincidence documents
+# Documents for the writer branches that compare an element's value with its DEFAULT CLASS's value and skip (or trim)
+# on equality: a tree of default classes (main > c1 > c2) with non-degenerate multi-component defaults, and elements /
+# nested classes whose vectors coincide with the class value in SOME components only (all / none / first only / last
+# only / random mask / a shorter vector / a single value for the 1|2-valued springlength), for every element kind that
+# has such attributes (rows with len > 1 of the generated tables, hand-written ones included, plus springlength and the
+# user arrays).  Oracle: the round trip of every compiled array.
+def _vpool(attr, n):
+    """three vectors of length n for attribute `attr`; every component-wise mix of them is a valid value"""
+    if attr in ("range", "ctrlrange", "forcerange", "actrange", "actuatorfrcrange", "lengthrange", "velrange", "ffrange"):
+        return [(-0.5, 0.75), (-0.25, 1.5), (-0.125, 0.5)]
+    if attr == "springlength":
+        return [(0.25, 0.75), (0.375, 1.25), (0.125, 0.5)]
+    if attr.startswith("solimp"):
+        return [(0.5, 0.875, 0.25, 0.5, 2.0), (0.625, 0.9375, 0.5, 0.25, 3.0), (0.75, 0.96875, 0.125, 0.75, 1.0)]
+    if attr.startswith("solref"):
+        return [(0.25, 0.5), (0.125, 1.5), (0.0625, 1.0)]
+    if attr in ("axis", "dir"):
+        return [(0.0, 0.6, 0.8), (0.6, 0.0, 0.5), (0.3, 0.3, 1.0)]
+    if attr in ("rgba", "ambient", "diffuse", "specular", "attenuation"):
+        return [(0.25, 0.5, 0.75, 1.0)[:n], (0.5, 0.25, 0.125, 0.5)[:n], (0.75, 1.0, 0.25, 0.25)[:n]]
+    if attr == "resolution":
+        return [(4, 6), (8, 10), (12, 2)]
+    if attr == "pos":
+        return [(0.25, -0.5, 0.125), (0.5, 0.25, -0.25), (-0.125, 0.125, 0.375)]
+    if attr == "user":
+        return [(1.0, 2.0, 3.0), (4.0, 5.0, 6.0), (7.0, 8.0, 9.0)]
+    base = [0.25, 0.125, 0.375, 0.0625, 0.5, 0.1875, 0.3125, 0.4375, 0.75, 0.625]
+    return [tuple(base[i % 10] for i in range(n)), tuple(base[i % 10] + 0.5 for i in range(n)),
+            tuple(base[(i + 3) % 10] + 1.0 for i in range(n))]
+
+
+DC_KINDS = {   # element kind -> (table, attributes left out: semantics beyond "a vector with a default")
+    "geom": ("kGeomAttrs", {"fromto", "pos", "surfacevel"}), "joint": ("kJointAttrs", {"springdamper", "pos"}),
+    "site": ("kSiteAttrs", {"fromto", "pos"}), "camera": ("kCameraAttrs", {"focalpixel", "principalpixel", "pos"}),
+    "light": ("kLightAttrs", {"pos"}), "pair": ("kPairAttrs", set()), "material": ("kMaterialAttrs", set()),
+    "tendon": ("kSpatialAttrs", {"actuatorfrcrange", "rgba"}), "general": ("kGeneralAttrs", {"lengthrange"}),
+    "equality": ("kEqualityBaseAttrs", set()),
+}
+DC_USER = {"geom": "nuser_geom", "joint": "nuser_jnt", "site": "nuser_site", "camera": "nuser_cam", "tendon": "nuser_tendon",
+           "general": "nuser_actuator"}
+
+
+def default_coincidence_doc(rng, tj):
+    R = rng.random
+    tables = {t["name"]: t["rows"] for t in tj["tables"]}
+    attrs = {}
+    for kind, (tname, skip) in DC_KINDS.items():
+        rows = [(r["attr"], r["len"], r["exact"], r["kind"] == "kInt") for r in tables.get(tname, [])
+                if r["kind"] in NUM and r["len"] > 1 and r["attr"] not in skip and not r["nodefault"]]
+        if kind == "tendon":
+            rows.append(("springlength", 2, False, False))
+        if kind in DC_USER:
+            rows.append(("user", 3, False, False))
+        attrs[kind] = rows
+    hist = {}
+
+    def pick(kind, attr, n, exact, isint, parent):
+        """-> (text, effective vector or None).  parent: effective vector of the class the value is compared with"""
+        pool = _vpool(attr, n)
+        pats = ["all", "none", "first", "last", "rand"] + ([] if exact else ["short"]) + (["single"] * 2 if attr == "springlength" else [])
+        pat = rng.choice(pats)
+        if parent is None and pat != "short":
+            pat = "fresh"
+        hist[pat] = hist.get(pat, 0) + 1
+        if attr == "springlength" and pat == "single":
+            v = rng.choice([parent[0], parent[1], rng.choice(pool)[0]]) if parent else rng.choice(pool)[0]
+            return fmt(v), (v, v)
+
+        def other(i, cur):
+            return rng.choice([p[i] for p in pool if p[i] != cur] or [cur])
+        if pat == "fresh":
+            v = list(rng.choice(pool))
+        else:
+            base = parent if parent is not None else rng.choice(pool)
+            k = rng.randint(1, n - 1) if pat == "short" else n
+            mask = {"all": [True] * n, "none": [False] * n, "first": [True] + [False] * (n - 1), "last": [False] * (n - 1) + [True],
+                    "rand": [R() < 0.5 for _ in range(n)], "short": [R() < 0.5 for _ in range(n)]}[pat]
+            v = [base[i] if mask[i] else other(i, base[i]) for i in range(k)]
+            if k < n:
+                eff = tuple(v) + tuple(parent[k:]) if parent is not None else None
+                return " ".join(fmt(x) for x in v), eff
+        return " ".join(str(int(x)) if isint else fmt(x) for x in v), tuple(v)
+
+    def attrtext(kind, cls_eff, p_attr, force=()):
+        """attributes of one element (or class entry) of `kind` compared with the effective values cls_eff; -> text, new eff"""
+        out, eff = [], dict(cls_eff)
+        for attr, n, exact, isint in attrs[kind]:
+            if R() > p_attr and attr not in force:
+                continue
+            t, e = pick(kind, attr, n, exact, isint, cls_eff.get(attr))
+            out.append('%s="%s"' % (attr, t))
+            eff[attr] = e
+        return " ".join(out), eff
+    tags = {"tendon": "tendon", "general": "general"}
+    eff = {"main": {}, "c1": {}, "c2": {}}
+    dlines = {"main": [], "c1": [], "c2": []}
+    for cls, par, p in (("main", None, 0.8), ("c1", "main", 0.6), ("c2", "c1", 0.6)):
+        for kind in DC_KINDS:
+            pe = eff[par][kind] if par else {}
+            if par is None or R() < 0.8:
+                # the top class makes every element valid by itself: box geoms/sites (all three size components are used),
+                # positive sizes, a sensor size for the cameras, a dyntype for the actuators
+                t, e = attrtext(kind, pe, p, force=("size", "sensorsize") if par is None else ())
+                extra = ' type="box"' if kind in ("geom", "site") and par is None else \
+                    ' dyntype="filter"' if kind == "general" and par is None else ""
+                dlines[cls].append("<%s%s %s/>" % (tags.get(kind, kind), extra, t))
+                eff[cls][kind] = e
+            else:
+                eff[cls][kind] = dict(pe)
+
+    def el(kind, head, tail="/>"):
+        cls = rng.choice(("main", "c1", "c2", "c2", "c1"))
+        t, _ = attrtext(kind, eff[cls][kind], 0.5)
+        return "<%s class=\"%s\" %s" % (head, cls, t) + tail
+    L = ["<mujoco>", '  <compiler angle="radian"/>',
+         "  <size %s/>" % " ".join('%s="3"' % v for v in DC_USER.values()),
+         "  <default>"] + ["    " + x for x in dlines["main"]] + ['    <default class="c1">'] + ["      " + x for x in dlines["c1"]] + \
+        ['      <default class="c2">'] + ["        " + x for x in dlines["c2"]] + ["      </default>", "    </default>", "  </default>",
+                                                                                   "  <asset>", "    " + el("material", 'material name="m1"'),
+                                                                                   "    " + el("material", 'material name="m2"'), "  </asset>", "  <worldbody>"]
+    for b, pos in (("1", "0 0 1"), ("2", "1 0 1"), ("3", "0 1 1")):
+        L.append('    <body name="b%s" pos="%s">' % (b, pos))
+        L.append("      " + el("joint", 'joint name="j%s" type="%s"' % (b, rng.choice(("hinge", "slide")))))
+        L.append("      " + el("geom", 'geom name="g%s"' % b))
+        L.append("      " + el("site", 'site name="s%s"' % b))
+        if R() < 0.6:
+            L.append("      " + el("camera", 'camera name="c%s"' % b))
+        if R() < 0.6:
+            L.append("      " + el("light", 'light name="l%s"' % b))
+        L.append("    </body>")
+    L += ["  </worldbody>", "  <contact>", "    " + el("pair", 'pair geom1="g1" geom2="g2"'), "    " + el("pair", 'pair geom1="g1" geom2="g3"'), "  </contact>",
+          "  <tendon>", "    " + el("tendon", 'spatial name="t1"', '><site site="s1"/><site site="s2"/></spatial>'),
+          "    " + el("tendon", 'spatial name="t2"', '><site site="s2"/><site site="s3"/></spatial>'),
+          "    " + el("tendon", 'fixed name="t3"', '><joint joint="j1" coef="1"/><joint joint="j2" coef="-0.5"/></fixed>'), "  </tendon>",
+          "  <equality>", "    " + el("equality", 'joint joint1="j1" joint2="j3"'), "    " + el("equality", 'weld body1="b1" body2="b2"'), "  </equality>",
+          "  <actuator>", "    " + el("general", 'general name="a1" joint="j1"'), "    " + el("general", 'general name="a2" tendon="t1"'),
+          "    " + el("general", 'general name="a3" joint="j3"'), "  </actuator>", "</mujoco>"]
+    return {"xml": "\n".join(L) + "\n", "patterns": hist}
+
+
 # ------------------------------------------------------------------------------------------ round-trip oracle
 def classify(fields):
     """fields: list of (name, count, first, a, b) of a diff line"""
@@ -571,11 +726,12 @@ def _run(ctx):
     ctx.extra["tables"] = {"tables": len(tj.get("tables", [])), "rows": sum(len(t["rows"]) for t in tj.get("tables", [])),
                            "writer_tables": tj.get("writer_tables"), "maps": len(tj.get("maps", {}))}
 
-    ctx.lean_props(THEOREMS + THEOREMS_INERTIAL, extra_modules=["MjProof.Props.C32Inertial"])
+    ctx.lean_props(THEOREMS + THEOREMS_INERTIAL + THEOREMS_ARITY,
+                   extra_modules=["MjProof.Props.C32Inertial", "MjProof.Props.C32Arity"])
     ctx.lean_props(THEOREMS_GEN, module="MjProof.Props.C32Gen")
     with open(os.path.join(common.LEAN, "Audit", "C32.lean"), "w") as f:
-        f.write("import MjProof.Props.C32\nimport MjProof.Props.C32Gen\nimport MjProof.Props.C32Inertial\n" +
-                "".join("#print axioms %s\n" % t for t in THEOREMS + THEOREMS_GEN + THEOREMS_INERTIAL))
+        f.write("import MjProof.Props.C32\nimport MjProof.Props.C32Gen\nimport MjProof.Props.C32Inertial\nimport MjProof.Props.C32Arity\n" +
+                "".join("#print axioms %s\n" % t for t in THEOREMS + THEOREMS_GEN + THEOREMS_INERTIAL + THEOREMS_ARITY))
 
     drv = ctx.driver("drv_c32")
     try:
@@ -714,6 +870,46 @@ def _run(ctx):
         ops17.append("xml %s %s" % (oid, d["xml"].encode().hex()))
         if i % 3 == 0:
             ops6.append("xml %s %s" % (oid, d["xml"].encode().hex()))
+    # default-coincidence documents (writer branches that compare with the default class and skip on equality) + the tie of
+    # the variable-arity springlength writer
+    ndc, nspring = (600, 400) if thorough else (50, 60)
+    dpat = {}
+    for i in range(ndc):
+        d = default_coincidence_doc(rng, tj)
+        for k, v in d["patterns"].items():
+            dpat[k] = dpat.get(k, 0) + v
+        oid = "dc%d" % i
+        meta[oid] = {"origin": "default-coincidence MJCF (class tree main > c1 > c2, partial coincidence with the class default)",
+                     "xml": d["xml"]}
+        ops17.append("xml %s %s" % (oid, d["xml"].encode().hex()))
+        if i % 2 == 0:
+            ops6.append("xml %s %s" % (oid, d["xml"].encode().hex()))
+    sp = [0.125, 0.25, 0.375, 0.75, 1.25]
+    slines = []
+    for _ in range(nspring):
+        t = sorted(rng.choice(sp) for _ in range(2)) if rng.random() < 0.6 else [rng.choice(sp)] * 2
+        dd = sorted(rng.choice(sp) for _ in range(2)) if rng.random() < 0.6 else [rng.choice(sp)] * 2 if rng.random() < 0.7 else None
+        if dd is not None and rng.random() < 0.6:
+            t[0] = dd[0] if rng.random() < 0.5 else t[0]
+            t[1] = max(t[0], dd[1]) if rng.random() < 0.5 else max(t)
+        if rng.random() < 0.1:
+            t[0] = t[0] + rng.choice((1e-17, 1e-16))
+            t[1] = max(t)
+        doc = "<mujoco>%s<worldbody><body><joint/><geom size=\"0.1\"/><site name=\"a\"/></body><body pos=\"1 0 0\"><joint/>" \
+              "<geom size=\"0.1\"/><site name=\"b\"/></body></worldbody><tendon><spatial springlength=\"%s\"><site site=\"a\"/>" \
+              "<site site=\"b\"/></spatial></tendon></mujoco>" % (
+                  "" if dd is None else "<default><tendon springlength=\"%s %s\"/></default>" % (repr(dd[0]), repr(dd[1])),
+                  "%s %s" % (repr(t[0]), repr(t[1])))
+        de = dd if dd is not None else [-1.0, -1.0]
+        slines.append("s %s %s %s %s # %s" % (bits(t[0]), bits(t[1]), bits(de[0]), bits(de[1]), doc.encode().hex()))
+    ctx.differential("variable-arity springlength writer (model) vs the attribute in the text saved by mj_saveXMLString",
+                     [drv], wrapper, slines, keyf=lambda l: l.split(" # ")[0])
+    ctx.extra["default_coincidence_documents"] = {"documents": ndc, "pattern_histogram (per attribute instance)": dpat,
+                                                  "element kinds": sorted(DC_KINDS), "springlength tie ops": nspring}
+    for i, l in enumerate(slines[: (200 if thorough else 30)]):
+        oid = "sp%d" % i
+        meta[oid] = {"origin": "springlength tie document", "xml": bytes.fromhex(l.split(" ")[-1]).decode()}
+        ops17.append("xml %s %s" % (oid, l.split(" ")[-1]))
     # mjSpec programs with compiler settings, restricted to those the tree round-trips (no explicit inertials here, so every
     # body is covered by inertial_roundtrip): visual geoms discarded, inertia from geoms
     nspec = 120 if thorough else 12
